@@ -198,12 +198,12 @@ def run(ctx, env):
         tpl = {"Templates": "<%sTemplates as nom_derive::Parse" % V9, "OptionsTemplates": "<%sOptionsTemplates as nom_derive::Parse" % V9}
         for idv, want in ((0, {"Templates"}), (1, {"OptionsTemplates"}), (2, set()), (255, set()), (256, set()), (65535, set())):
             r = reach_assuming(an, fb, {canon(("arg", 3)): idv})
-            got = set()
-            for blk, t, c in fb.calls():
-                if blk in r and c is not None and c.local:
-                    for k, pre in tpl.items():
-                        if c.path.startswith(pre):
-                            got.add(k)
+            def tname(nd):
+                for k, pre in tpl.items():
+                    if nd["path"].startswith(pre):
+                        return k
+                return None
+            got = local_callees_reaching(prog, fb, r, tname)
             ctx.ob("R4.2", fb.path, "id=%d" % idv, got == want, "flowset id %d reaches template parsers %s, expected %s" % (idv, sorted(got), sorted(want)))
     # R4.3
     n43 = 0
@@ -267,60 +267,9 @@ def run(ctx, env):
         Ld = lay.parser_layout(V9 + "Data::parse_be")
         okp = Ld["ok"] and len(Ld["steps"]) == 2 and Ld["steps"][1]["fields"] == ["padding"] and Ld["steps"][1]["term"][0] == "vec" and Ld["steps"][1]["term"][1] == "u8"
         ctx.ob("R4.4", V9 + "Data::parse_be", "padding-is-rest", bool(okp), "steps: %s" % [(s["fields"], term_s(s["term"])[:60]) for s in Ld["steps"]])
-    # R4.5
-    pdf = prog.body(V9 + "FieldParser::parse_data_field")
-    if ctx.anchor("R4.5", V9 + "FieldParser::parse_data_field", pdf):
-        its = [(blk, t, c) for blk, t, c in pdf.calls() if c is not None and c.nsyn == "std::iter::Iterator::next"]
-        ok = False
-        why = "no iterator loop"
-        if its:
-            ty = its[0][1]["argtys"][0]
-            ok = "std::iter::Enumerate<std::slice::Iter<" in ty and not re.search(r"std::iter::(Rev|Skip|StepBy|Filter|Take|Zip|Chain)", ty)
-            why = "iterates %s" % ty[:140]
-        ctx.ob("R4.5", pdf.path, "fields.iter().enumerate()", ok, why)
-        # source of the iteration
-        en = [(blk, t) for blk, t, c in pdf.calls() if c is not None and c.npath == "std::iter::Iterator::enumerate"]
-        oks = False
-        if en:
-            src = peel(an.op(pdf, en[0][1]["args"][0]), identity=())
-            oks = src[0] == "call" and src[2].npath.endswith("<impl [T]>::iter") and peel(src[3][0])[0] == "field" and peel(src[3][0])[2] == "fields"
-        ctx.ob("R4.5", pdf.path, "iterates-template.fields", oks, "enumerate source: %s" % (canon(src)[:120] if en else "?"))
-        ins = [(blk, t) for blk, t, c in pdf.calls() if c is not None and c.npath == "std::collections::BTreeMap::insert"]
-        okk = False
-        why = "no insert"
-        if ins:
-            key = peel(an.op(pdf, ins[0][1]["args"][1]))
-            val = peel(an.op(pdf, ins[0][1]["args"][2]))
-            item = lambda e: bool(find(e, lambda n: n[0] == "some" and peel(n[1])[0] == "call" and peel(n[1])[2].nsyn == "std::iter::Iterator::next"))
-            kok = key[0] == "tfield" and key[2] == 0 and item(key)
-            vok = val[0] == "tuple" and len(val[1]) == 2 and peel(val[1][0])[0] == "field" and peel(val[1][0])[2] == "field_type" and item(val[1][0])
-            vv = peel(val[1][1]) if val[0] == "tuple" and len(val[1]) == 2 else ("opaque",)
-            v2 = vv[0] == "tfield" and vv[2] == 1 and vv[1][0] == "ok" and peel(vv[1][1])[0] == "call" and peel(vv[1][1])[2].path.endswith("parse_as_field_value")
-            okk = bool(kok and vok and v2)
-            why = "insert(%s, %s)" % (canon(key)[:80], canon(val)[:160])
-        ctx.ob("R4.5", pdf.path, "insert(index,(field_type,value))", okk, why)
-        # cursor threading: the input handed to parse_as_field_value is the loop-carried cursor, reassigned from the call's remainder
-        pav = [(blk, t) for blk, t, c in pdf.calls() if c is not None and c.local and c.path.endswith("parse_as_field_value")]
-        okc = False
-        why = "no field decoder call"
-        if pav:
-            cur = an.op(pdf, pav[0][1]["args"][1])
-            mem = peel(cur)
-            members = mem[1] if mem[0] == "phi" else [mem]
-            kinds = []
-            for m in members:
-                m = peel(m)
-                if m == ("arg", 1):
-                    kinds.append("entry")
-                elif m[0] == "tfield" and m[2] == 0 and m[1][0] == "ok":
-                    kinds.append("remainder")
-                elif m[0] == "cycle":
-                    kinds.append("remainder")
-                else:
-                    kinds.append("other:" + canon(m)[:60])
-            okc = set(kinds) <= {"entry", "remainder"} and "remainder" in kinds
-            why = "cursor members: %s" % kinds
-        ctx.ob("R4.5", pdf.path, "cursor-threaded", okc, why)
+    # R4.5 (form-independent: the per-field decode site is located by role, see records.py)
+    from . import records
+    R = records.decode_order_rule(ctx, prog, an, "R4.5", V9 + "Data::parse_be", "v9")
     tf = prog.body(V9 + "TemplateField::parse_as_field_value")
     if ctx.anchor("R4.5", V9 + "TemplateField::parse_as_field_value", tf):
         ret = peel(an.local(tf, 0))
@@ -388,7 +337,8 @@ def run(ctx, env):
     datatype_scrutinee_rule(ctx, an, prog, "R4.7", "<variable_versions::data_number::FieldDataType as std::convert::From<variable_versions::v9_lookup::V9Field>>::from", "variable_versions::v9_lookup::V9Field")
     ctx.floor("R4.7", "v9", "lookup arms", n7, 100)
     # R4.9
-    decoder_iterates_records(ctx, prog, an, "R4.9", only="::v9::")
+    records.record_repetition_rule(ctx, prog, an, "R4.9", V9 + "Data::parse_be", R)
+    decoder_iterates_records(ctx, prog, an, "R4.9", only="::v9::OptionsData")
     # sibling cross-check: the IPFIX decoders are the reference shape (evaluated under C05)
 
 
